@@ -218,3 +218,32 @@ theorem pairwise_erase_split {x : Int} {xv : Nat} {l1 l2 : List (Int × Nat)}
     (l1 ++ l2).Pairwise (fun p q => p.1 < q.1) := by
   refine hs.sublist ?_
   exact List.Sublist.append (List.Sublist.refl _) (List.sublist_cons_self _ _)
+
+theorem size_eq_length : ∀ t : T, T.size t = (toList t).length := by
+  intro t
+  induction t with
+  | nil => rfl
+  | node l k v b r ihl ihr => simp [T.size, ihl, ihr]; omega
+
+/-- in a strictly sorted association list membership and first-match lookup coincide -/
+theorem mem_iff_lookup_of_sorted {t : T} (hs : Sorted t) (k : Int) (v : Nat) :
+    (k, v) ∈ toList t ↔ List.lookup k (toList t) = some v := by
+  unfold Sorted at hs
+  generalize toList t = l at hs
+  induction l with
+  | nil => simp
+  | cons p l ih =>
+    obtain ⟨a, va⟩ := p
+    obtain ⟨h1, h2⟩ := List.pairwise_cons.mp hs
+    rw [List.lookup_cons, List.mem_cons]
+    by_cases e : k = a
+    · subst e
+      simp only [beq_self_eq_true, Prod.mk.injEq, true_and, Option.some.injEq]
+      constructor
+      · rintro (e | hm)
+        · exact e.symm
+        · have := h1 _ hm; simp at this
+      · intro e; exact Or.inl e.symm
+    · have hb : (k == a) = false := by simp [e]
+      simp only [hb, Prod.mk.injEq, e, false_and, false_or]
+      exact ih h2
